@@ -395,6 +395,51 @@ class Emitter:
             self.func_info[name] = dict(qual=key + ' (memberwise copy, synthesised)', loc='', loops=[], synthesized=True)
         return name
 
+    def deq_expr(self, t, x, y):
+        """C expression: deep equality of two lvalues of type t (synthesised; used for generated frame checks)"""
+        if t.kind in ('ptr', 'ref', 'rref'): return '(%s == %s)' % (x, y)
+        if t.kind == 'array': raise Cxx2cError('deep equality: array field')
+        if t.name in PRIM_C or self.is_enum(t): return '(%s == %s)' % (x, y)
+        if t.name == 'OpenVolumeMesh::HandleIndexing': return self.deq_expr(t.args[1], x, y)
+        if t.name in ('std::vector', 'std::set') and getattr(self, 'deq_shallow', False):
+            return '(%s.size == %s.size)' % (x, y)
+        if t.name in ('std::vector', 'std::set'):
+            e = t.args[0]; c = self.ctype(t).replace('struct ', '')
+            name = c + '__deq'
+            if name not in self.func_text:
+                self.func_text[name] = None
+                body = ['  if (a->size != b->size) return 0;', '  _Bool r = 1;',
+                        '  for (unsigned long k = 0; k < a->size; k++) { if (!%s) r = 0; }' % self.deq_expr(e, 'a->data[k]', 'b->data[k]'), '  return r;']
+                self.func_text[name] = ('_Bool %s(struct %s *a, struct %s *b)' % (name, c, c), body, None)
+                self.func_info[name] = dict(qual=t.key() + ' (deep equality, synthesised)', loc='', loops=[], synthesized=True)
+            return '%s(&(%s), &(%s))' % (name, x, y)
+        if t.name == 'std::pair':
+            return '(%s && %s)' % (self.deq_expr(t.args[0], x + '.first', y + '.first'), self.deq_expr(t.args[1], x + '.second', y + '.second'))
+        if t.name == 'std::array':
+            nn = int(re.sub(r'[uUlL]', '', str(t.args[1])))
+            return '(' + ' && '.join(self.deq_expr(t.args[0], '%s.d[%d]' % (x, k), '%s.d[%d]' % (y, k)) for k in range(nn)) + ')'
+        key = t.key()
+        if key in self.ix.records:
+            return '%s(&(%s), &(%s))' % (self.deq_helper(t), x, y)
+        raise Cxx2cError('deep equality: no rule for type ' + key)
+
+    def deq_helper(self, t, shallow=False):
+        """deep equality over every field; shallow=True compares containers by size only (scalars, flags, counters, handles
+        and container sizes of EVERY field, including ones the hand-written specs do not know about)"""
+        key = t.key()
+        cn = self.struct_for(key)
+        name = cn + ('__seq' if shallow else '__deq')
+        self.deq_shallow = shallow
+        if name not in self.func_text:
+            self.func_text[name] = None
+            body = ['  _Bool r = 1;']
+            for fname, ft, fd in self.rec_fields(key):
+                body.append('  if (!%s) r = 0;' % self.deq_expr(ft, 'a->' + fname, 'b->' + fname))
+            body.append('  return r;')
+            self.func_text[name] = ('_Bool %s(struct %s *a, struct %s *b)' % (name, cn, cn), body, None)
+            self.func_info[name] = dict(qual=key + ' (memberwise deep equality, synthesised)', loc='', loops=[], synthesized=True)
+        return name
+
     def default_init_stmt(self, t, lv):
         """C statement(s) default-initialising lvalue lv of type t (C++ default-init/value-init of class types)"""
         if t.kind == 'ptr': return '%s = 0;' % lv
